@@ -1,6 +1,7 @@
 #!/venv/bin/python
-"""T1b: translate the pure decision functions of /repo (flag getters, has_priority_over, _validate_index, _get_child_kwargs)
-from their Python source into Gallina (coq/Gen/Src.v), fail-closed.
+"""T1b: translate the pure decision functions of /repo (flag getters, has_priority_over, _validate_index, _get_child_kwargs) and the
+field-mutating parts of _replace_self / _replace_other / _propagate_implicit_values (class Mut: assignments to the flag fields of self /
+child as a chain of let-bindings) from their Python source into Gallina (coq/Gen/Src.v), fail-closed.
 
 The translator understands a small, explicitly listed subset of Python (see `Tr`): `if` / `return` / `raise` / assignment to a
 local name or to a key of the result dict, comparisons, `is None` tests (which REFINE the tested attribute to its non-None type
@@ -24,7 +25,9 @@ ATTRS = {'_priority': ('f_prio', OZ), '_delete': ('f_del', OB), '_allow_new': ('
          '_default_safe': ('f_dsafe', OB)}
 # class-level defaults become parameters of the generated definition
 CLASSATTR = {'_default_priority': ('dprio', Z), '_default_delete': ('ddel', B), '_default_allow_new': ('dnew', B)}
-OBJ = {'self': 'f', 'other': 'g'}
+OBJ = {'self': 'f', 'other': 'g', 'child': 'c'}
+META = 'list (Z * Z)'
+FIELDS = ['_priority', '_delete', '_allow_new', '_safe', '_implicit_delete', '_implicit_allow_new', '_implicit_safe', '_default_safe']
 
 
 class Unsupported(Exception):
@@ -263,6 +266,122 @@ class Tr:
         fail(s, 'statement')
 
 
+class Mut(Tr):
+    """functions that MUTATE the flag fields of `self` / `child`: straight-line assignments and (nested) `if` blocks without `else`, translated
+    into a chain of let-bindings over the current value of every field (SSA); an `if X is not None:` block refines X inside; the block joins
+    as `if c then <new> else <old>` per changed variable.  Translation stops at the first statement for which `stop` holds (it must exist):
+    what follows (promotion of the container type, recursion into the child) is modelled by hand and tied by correspondence."""
+    def __init__(self, params):
+        super().__init__(None, params)
+        self.cur = {}
+        self.lets = []
+
+    def expr(self, e):
+        src = ast.unparse(e)
+        if src in self.refined:
+            return self.refined[src]
+        if src in self.cur:
+            return self.cur[src]
+        if isinstance(e, ast.Attribute) and e.attr == '_metadata' and isinstance(e.value, ast.Name) and e.value.id in OBJ:
+            return f'(f_meta {OBJ[e.value.id]})', META
+        if isinstance(e, ast.Dict) and len(e.values) == 2 and all(k is None for k in e.keys):
+            (a, ta), (b, tb) = self.expr(e.values[0]), self.expr(e.values[1])
+            if ta == META and tb == META:
+                return f'(mupd {a} {b})', META          # {**a, **b}
+        return super().expr(e)
+
+    def target(self, tg):
+        """(state key, required type or None)"""
+        if isinstance(tg, ast.Attribute) and isinstance(tg.value, ast.Name) and tg.value.id in OBJ:
+            if tg.attr in ATTRS:
+                return ast.unparse(tg), ATTRS[tg.attr][1]
+            if tg.attr == '_metadata':
+                return ast.unparse(tg), META
+        if isinstance(tg, ast.Name):
+            return tg.id, None
+        fail(tg, 'assignment target')
+
+    def new_var(self, hint):
+        self.fresh += 1
+        return f'{hint}{self.fresh}'
+
+    def run(self, stmts, stop, top=True):
+        for i, s in enumerate(stmts):
+            if stop(s):
+                return True
+            if isinstance(s, ast.Expr) and isinstance(s.value, ast.Constant) and isinstance(s.value.value, str):
+                continue
+            if isinstance(s, ast.Assign) and len(s.targets) == 1:
+                key, want = self.target(s.targets[0])
+                if key in self.refined:
+                    fail(s, 'assignment to a refined attribute')
+                t, ty = self.expr(s.value)
+                if want is None and key in self.cur:
+                    want = self.cur[key][1]
+                if want is not None:
+                    t, ty = self.coerce(t, ty, want), want
+                v = self.new_var('x')
+                self.lets.append((v, t))
+                self.cur[key] = (v, ty)
+                if want is None:
+                    self.env[key] = (v, ty)
+                continue
+            if isinstance(s, ast.If) and not s.orelse:
+                ref = None
+                if isinstance(s.test, ast.Compare) and len(s.test.ops) == 1 and isinstance(s.test.ops[0], ast.IsNot) \
+                        and isinstance(s.test.comparators[0], ast.Constant) and s.test.comparators[0].value is None:
+                    src = ast.unparse(s.test.left)
+                    lt, lty = self.expr(s.test.left)
+                    if lty in (OB, OZ) and src not in self.refined:
+                        ref = (src, lt, self.new_var('v'), B if lty == OB else Z)
+                if ref is None:
+                    t, ty = self.expr(s.test)
+                    if ty != B: fail(s, 'if on a non-bool')
+                saved_cur, saved_env, saved_lets = dict(self.cur), dict(self.env), self.lets
+                self.lets = []
+                if ref: self.refined[ref[0]] = (ref[2], ref[3])
+                if self.run(s.body, stop, top=False):
+                    fail(s, 'stop statement inside a conditional block')
+                if ref: del self.refined[ref[0]]
+                body_cur, body_lets = self.cur, self.lets
+                self.cur, self.env, self.lets = saved_cur, saved_env, saved_lets
+                for key, (nv, nty) in body_cur.items():
+                    if saved_cur.get(key) == (nv, nty):
+                        continue
+                    if key in saved_cur:
+                        ot, oty = saved_cur[key]
+                    else:
+                        ot, oty = self.expr(ast.parse(key, mode='eval').body)
+                    if oty != nty: fail(s, f'{key} changes its type in a conditional block')
+                    new = ''.join(f'let {a} := {b} in ' for a, b in body_lets) + nv
+                    v = self.new_var('x')
+                    if ref:
+                        self.lets.append((v, f'match {ref[1]} with Some {ref[2]} => {new} | None => {ot} end'))
+                    else:
+                        self.lets.append((v, f'if {t} then {new} else {ot}'))
+                    self.cur[key] = (v, nty)
+                    if key in self.env or '.' not in key:
+                        self.env[key] = (v, nty)
+                continue
+            fail(s, 'statement (mutator)')
+        if top:
+            raise Unsupported('the stop statement was not found')
+        return False
+
+    def flags_of(self, obj):
+        parts = []
+        for a in FIELDS:
+            key = f'{obj}.{a}'
+            parts.append(self.cur[key][0] if key in self.cur else f'({ATTRS[a][0]} {OBJ[obj]})')
+        key = f'{obj}._metadata'
+        parts.append(self.cur[key][0] if key in self.cur else f'(f_meta {OBJ[obj]})')
+        parts.append(f'(f_src {OBJ[obj]})')
+        return '(mkF ' + ' '.join(parts) + ')'
+
+    def wrap(self, result):
+        return ''.join(f'let {a} := {b} in\n  ' for a, b in self.lets) + result
+
+
 def find_func(rel, path):
     """the FunctionDef reached through nested class / function names in awesomeyaml/<rel> (getter, not setter, for properties)"""
     src = open(os.path.join(REPO, 'awesomeyaml', rel), newline='').read().replace('\r\n', '\n')
@@ -282,7 +401,10 @@ def main(out):
     L = ['(* GENERATED by tools/translate_src.py from the Python source in the working tree of /repo - do not edit *)',
          'From AY Require Import Model.Node.', 'Open Scope Z_scope.', 'Module Src.',
          'Definition ob_eqb (a b : option bool) : bool := match a, b with None, None => true | Some x, Some y => Bool.eqb x y | _, _ => false end.',
-         'Record ckw := mkCK { ck_any : bool; ck_idel : option bool; ck_inew : option bool; ck_isafe : option bool }.']
+         'Record ckw := mkCK { ck_any : bool; ck_idel : option bool; ck_inew : option bool; ck_isafe : option bool }.',
+         '(* {**a, **b} on association lists: the entries of b are set into a one by one (an existing key keeps its position) *)',
+         'Fixpoint mset (k v : Z) (l : list (Z * Z)) : list (Z * Z) := match l with [] => [(k, v)] | (k\', v\') :: r => if k =? k\' then (k, v) :: r else (k\', v\') :: mset k v r end.',
+         'Definition mupd (a b : list (Z * Z)) : list (Z * Z) := fold_left (fun acc kv => mset (fst kv) (snd kv) acc) b a.']
 
     def emit(name, sig, rettype, fn, params, fixed=None):
         tr = Tr(rettype, params, fixed)
@@ -299,6 +421,34 @@ def main(out):
     emit('has_priority_over', '(f g : flags) (if_equal : bool) (dprio : Z)', B, prop('has_priority_over'), {'if_equal': ('if_equal', B)})
     emit('validate_index', '(len : Z) (index : key) (strict : bool)', IDX, find_func('nodes/list.py', ['ConfigList', '_validate_index']), {'strict': ('strict', B), 'index': ('index', 'key')})
     emit('child_kwargs', '(f : flags) (ddel : bool)', CKW, find_func('nodes/composed.py', ['ComposedNode', '_get_child_kwargs']), {}, fixed={'child': None})
+
+    # ---- mutators: the flag part of _replace_other / _replace_self (up to `if allow_promotions:`)
+    def is_if_on(name):
+        return lambda s: isinstance(s, ast.If) and ast.unparse(s.test) == name
+    for pyname, coqname in (('_replace_other', 'replace_other_flags'), ('_replace_self', 'replace_self_flags')):
+        fn = find_func('nodes/node.py', ['ConfigNode', pyname])
+        m = Mut({})
+        m.run(fn.body, is_if_on('allow_promotions'))
+        L.append(f'Definition {coqname} (f g : flags) : flags :=\n  {m.wrap(m.flags_of("self"))}.')
+    # ---- _propagate_implicit_values: the guards, and what the loop does to ONE child (up to the recursive call `if fix:`)
+    fn = find_func('nodes/composed.py', ['ComposedNode', '_propagate_implicit_values'])
+    guards, rest = [], list(fn.body)
+    while rest and isinstance(rest[0], ast.If):
+        g = rest.pop(0)
+        if g.orelse or len(g.body) != 1 or not isinstance(g.body[0], ast.Return) or g.body[0].value is not None:
+            raise Unsupported('guard of _propagate_implicit_values is not `if ..: return`')
+        guards.append(ast.If(test=g.test, body=[ast.Return(value=ast.Constant(True))], orelse=[]))
+    tr = Tr(B, {})
+    L.append('Definition prop_stops (f : flags) : bool :=\n  ' + tr.block(guards + [ast.Return(value=ast.Constant(False))]) + '.')
+    if len(rest) != 2 or not isinstance(rest[1], ast.For) or ast.unparse(rest[1].iter) != 'self._children.values()' or ast.unparse(rest[1].target) != 'child' or rest[1].orelse:
+        raise Unsupported('_propagate_implicit_values: expected one assignment and one loop over self._children.values()')
+    m = Mut({'ddel': ('ddel', B)})
+    m.env.update({})
+    global CLASSATTR
+    m.run([rest[0]] + list(rest[1].body), is_if_on('fix'))
+    if 'fix' not in m.cur:
+        raise Unsupported('_propagate_implicit_values: no `fix` flag')
+    L.append(f'Definition pc_flags (f : flags) (ddel : bool) (c : flags) : flags * bool :=\n  {m.wrap("(" + m.flags_of("child") + ", " + m.cur["fix"][0] + ")")}.')
     L.append('End Src.')
     text = '\n'.join(L) + '\n'
     old = open(out).read() if os.path.exists(out) else None
